@@ -29,6 +29,7 @@
 EXTENDS PathRes, Json, IOUtils, SequencesExt, FiniteSetsExt
 
 CONSTANTS MaxDepth, AbsDepth,
+          DeepTrail,       \* TRUE: trailing-slash variants also at the deepest level (FALSE halves the depth-MaxDepth layer)
           VRealpath, VContain, VArrowAbs, VListRaw, VFollow,     \* the variant (see PathRes)
           VRootGuard                                             \* TRUE = the code as it is (since 409b145)
 
@@ -172,8 +173,8 @@ Out(x, V) ==
       listServes |-> ListServes(fs, base, p, lst)]
 
 \* (written as nested quantifiers so that TLC enumerates the cases without first building the set)
-Init == \/ \E l \in Layouts, p \in RelPres, k \in 0..MaxDepth, t \in BOOLEAN :
-             \E cs \in [1..k -> Alphabet] : c = Mk(l, p, cs, t)
+Init == \/ \E l \in Layouts, p \in RelPres, k \in 0..MaxDepth :
+             \E t \in (IF k = MaxDepth /\ ~DeepTrail THEN {FALSE} ELSE BOOLEAN), cs \in [1..k -> Alphabet] : c = Mk(l, p, cs, t)
         \/ \E l \in Layouts, p \in AbsPres, k \in 0..AbsDepth, t \in BOOLEAN :
              \E cs \in [1..k -> Alphabet] : c = Mk(l, p, cs, t)
         \/ \E i \in DOMAIN SampleSeq :
